@@ -117,6 +117,10 @@ def _check(col, iname, cls, fn, args, result):
     if not (D.supported(ref) and D.supported(result)):
         col.skipped["outside_den_fragment"] += 1
         return
+    why = outside_carrier(ref, result)
+    if why:
+        col.skipped["outside_carrier: " + why] += 1
+        return
     out = TC.Outcome()
     ctx = col.context or {}
     tags = (name, "interp:" + iname, "cls:" + getattr(cls, "__name__", str(cls))) + tuple(
@@ -151,6 +155,55 @@ def _check(col, iname, cls, fn, args, result):
         if col.fail_count[name] <= 6:
             col.failures.append(dict(contract=contract, rule=name, detail=detail, tags=list(vtags),
                                      replaced=repr(ref)[:500], by=repr(result)[:500], context=dict(ctx)))
+
+
+NEGATIVE_PRODUCING = {"neg", "sub", "log", "lgamma", "invert", "safesub"}
+MULTIPLICATIVE = {"mul", "truediv", "reciprocal", "pow", "safediv"}
+
+
+def outside_carrier(*terms):
+    """The property restricts rule soundness to the carrier of the semiring the rule relies on:
+    non-negative data where max/min is paired with mul, booleans for or/and.  Returns a reason string when
+    a term pairs these ops outside that carrier (the firing is then skipped and counted), else None."""
+    op_names = set()
+    negative_leaf = False
+    nonbool_bitop = False
+    seen = set()
+    stack = list(terms)
+    while stack:
+        x = stack.pop()
+        if isinstance(x, Funsor):
+            if id(x) in seen:
+                continue
+            seen.add(id(x))
+            for attr in ("op", "red_op", "bin_op"):
+                o = getattr(x, attr, None)
+                name = getattr(o, "name", None)
+                if name:
+                    op_names.add(name)
+                    if name in ("and_", "or_", "xor"):
+                        kids = [v for v in x._ast_values if isinstance(v, Funsor)]
+                        for v in x._ast_values:
+                            if isinstance(v, tuple):
+                                kids += [w for w in v if isinstance(w, Funsor)]
+                        if any(getattr(k.output, "dtype", 2) != 2 for k in kids):
+                            nonbool_bitop = True
+            data = getattr(x, "data", None)
+            if data is not None and type(x).__name__.startswith(("Tensor", "Number")):
+                try:
+                    if np.any(np.asarray(data) < 0):
+                        negative_leaf = True
+                except TypeError:
+                    pass
+            stack.extend(x._ast_values)
+        elif isinstance(x, (tuple, frozenset)):
+            stack.extend(x)
+    if nonbool_bitop:
+        return "or/and/xor on non-booleans"
+    if op_names & {"max", "min"} and op_names & MULTIPLICATIVE:
+        if negative_leaf or op_names & NEGATIVE_PRODUCING:
+            return "max/min paired with mul on possibly negative data"
+    return None
 
 
 def _fallback_reference(cls, args):
